@@ -71,6 +71,7 @@ def run(ctx):
         "by the theorems of C08/Props.v where proved and otherwise by the spec-vs-fast self-check of this run",
         "probabilities are decimal literals; implementation floats are compared with exact rationals at 1e-9",
     ]
+    cc.IMPL_CPU_TIMEOUT = ctx.n(10, 20)   # CPU seconds per evaluation (a non-terminating grounding costs exactly this)
     ctx.prove("C01/Props.v")
     try:
         so.build(ctx)
